@@ -67,8 +67,8 @@ def check_and_replay(res, family):
         st = replay_mod.run_paths(g, factory, replay_mod.edge_paths(g))
         res.absorb(st, family + ':every-call-outcome', g)
         if not st.n_violations:
-            # a behaviour is at most two calls: depth 2 enumerates every behaviour of the graph
-            st = replay_mod.run_paths(g, factory, replay_mod.all_paths(g, 2))
+            # a behaviour is at most three calls: depth 3 enumerates every behaviour of the graph
+            st = replay_mod.run_paths(g, factory, replay_mod.all_paths(g, 3))
             res.absorb(st, family + ':all-behaviours', g)
     finally:
         shutil.rmtree(base, ignore_errors=True)
@@ -76,7 +76,8 @@ def check_and_replay(res, family):
     res.cov.setdefault('domain', {})[family] = {
         'scenarios': len(g.init), 'distinct_trees': len(roots), 'states_with_order_choice': multi,
         'distinct_rule_lists': len({sc['calls'] for sc in scenarios}),
-        'two_call_scenarios': sum(1 for sc in scenarios if len(sc['calls']) == 2)}
+        'multi_call_scenarios': sum(1 for sc in scenarios if len(sc['calls']) >= 2),
+        'fresh_map_scenarios': sum(1 for sc in scenarios if sc['fresh'])}
     res.cov['distinct_behaviours'] = res.cov.get('distinct_behaviours', 0) + len(g.init)
     return g
 
